@@ -229,6 +229,13 @@ def run(ctx):
         reset = {("pitch_inc_per_point", repr(Poly.const(0))), ("pitch_of_curr_point", repr(P)), ("pitch_counter", repr(P))}
         okr = reset <= set(got) and len(sig) == 4
         # the reset stores are on the complementary path
+        # ... on *every* path: a frame must not keep the slope of the previous one (an early exit
+        # for "nothing changed" leaves a stale non-zero increment behind)
+        inc_blocks = {bb for bb, i, s_, tgt, root, chain, val in stores(st, eb) if root[0] == "arg" and root[1] == 1 and chain and chain[0] == "pitch_inc_per_point"}
+        stale = [r for r in st.return_blocks() if st.can_reach(0, r, avoid=inc_blocks) and r not in inc_blocks]
+        if stale:
+            ctx.fail("C07-R2", st.path, "start: stale increment", "start() can return without setting pitch_inc_per_point: the glide slope of the previous frame stays in effect for this frame", st.loc())
+            okg = False
         if okg and okr and all(not (any("+Ne(self.pitch_of_curr_point, 0.0)" in x for x in got[r]) and any("+Ne(pitch, 0.0)" in x for x in got[r])) for r in reset):
             ctx.ok("C07-R2", "start(): inc = (pitch - current)/fperiod when current != 0 and pitch != 0; otherwise inc = 0, current = counter = pitch", st.loc())
         else:
